@@ -236,9 +236,11 @@ def renameE (r : Sym → Sym) : Expr → Expr
   | .f2 f a b => .f2 f (renameE r a) (renameE r b)
   | .f3 f a b c => .f3 f (renameE r a) (renameE r b) (renameE r c)
 
+/-- Amount functions (`A_CENTRAL(t)`) are derived from compartment names and
+    are not touched by `CompartmentalSystem.subs`. -/
 def St.rename (r : Sym → Sym) : St → St
   | .assign x e => .assign (r x) (renameE r e)
-  | .ode a es   => .ode (a.map r) (es.map (renameE r))
+  | .ode a es   => .ode a (es.map (renameE r))
 
 def renameAll (r : Sym → Sym) (ss : List St) : List St := ss.map (St.rename r)
 
@@ -270,12 +272,14 @@ def firstIndex (dv : Sym) : List St → Option Nat
 
 /-- `for j in range(i, -1, -1): y = y.subs({stats[j].symbol: stats[j].expression})`
     over a prefix; `none` when an ODE system is met (AttributeError in the code). -/
+def expandStep (s : St) (acc : Option Expr) : Option Expr :=
+  match s, acc with
+  | _, none => none
+  | .ode _ _, some _ => none
+  | .assign x t, some e => some (Expr.subst1 x t e)
+
 def expandBack (pre : List St) (e : Expr) : Option Expr :=
-  pre.foldr (fun s acc =>
-    match s, acc with
-    | _, none => none
-    | .ode _ _, some _ => none
-    | .assign x t, some e => some (Expr.subst1 x t e)) (some e)
+  pre.foldr expandStep (some e)
 
 def obsExpr (ss : List St) (dv : Sym) : Option Expr :=
   match firstIndex dv ss with
@@ -284,6 +288,18 @@ def obsExpr (ss : List St) (dv : Sym) : Option Expr :=
     match ss[i]? with
     | some (.assign _ t) => expandBack (ss.take (i + 1)) t     -- `y = s.expression`, then j = i, i-1, …, 0
     | _ => none
+
+/-- Side-condition under which the *first* assignment is the observation: the DV
+    is not defined again later and its defining expression does not read the DV
+    (the loop substitutes statement `i` into its own expression once more). -/
+def obsSafe (ss : List St) (dv : Sym) : Bool :=
+  match firstIndex dv ss with
+  | none => false
+  | some i =>
+    (ss.drop (i + 1)).all (fun s => !s.defs.contains dv) &&
+    (match ss[i]? with
+     | some (.assign _ t) => !t.syms.contains dv
+     | _ => false)
 
 /-- `get_individual_prediction_expression` / `get_population_prediction_expression`:
     set the given random variables to zero. -/
